@@ -9,7 +9,8 @@ def is_harness_arith(f, crate):
     desc = f.get("description", "")
     in_harness = loc.startswith("src/") and not loc.startswith("/repo")
     arith = desc.startswith("attempt to ") or "index out of bounds" in desc or "out of range for slice" in desc
-    return in_harness and arith
+    unwind = f.get("category") == "unwind" or desc.startswith("unwinding assertion")   # a loop of the harness itself needs a larger bound
+    return in_harness and (arith or unwind)
 
 
 def run(prop, gi, g, tier, known, do_replay):
@@ -24,11 +25,26 @@ def run(prop, gi, g, tier, known, do_replay):
     jobs = min(g["jobs"], int(os.environ.get("VERIF_JOBS", g["jobs"]) or g["jobs"]))
     results, meta = kani.run_group(g["crate"], g["filters"], tag, jobs=jobs, timeout_s=g["timeout_s"],
                                    cbmc_args=g["cbmc_args"], features=g["features"], extra_kani=g["extra_kani"])
+    # Harnesses that ended without a verdict well before their timeout were killed (memory exhaustion when several large CBMC
+    # processes run side by side, or a loaded machine): re-run exactly those, one or two at a time, before calling them inconclusive.
+    retried = []
+    if results and not meta["compile_error"]:
+        lost = [hid for hid, hr in results.items()
+                if hr.status == "Inconclusive" and not hr.failed and hr.duration_s < 0.9 * g["timeout_s"]]
+        if lost and len(lost) <= 12:
+            r2, m2 = kani.run_group(g["crate"], lost, tag + "_retry", jobs=max(1, min(2, jobs // 4)), timeout_s=g["timeout_s"],
+                                    cbmc_args=g["cbmc_args"], features=g["features"], extra_kani=g["extra_kani"], exact=True)
+            meta["wall_s"] = round(meta["wall_s"] + m2["wall_s"], 1)
+            for hid in lost:
+                if hid in r2 and r2[hid].status != "Inconclusive":
+                    r2[hid].note += "verdict from a sequential re-run (first attempt was killed without a verdict); "
+                    results[hid] = r2[hid]
+                    retried.append(hid)
     out = dict(violations=[], inconclusive=[], known=[], samples=[],
                totals=dict(harnesses=0, ok=0, checks=0, passed=0, covers=0, vccs=0, symex=0.0, solver=0.0, prog=0))
     evg = dict(engine="kani (CBMC 6.11 + CaDiCaL)", crate=g["crate"], filters=g["filters"], functions_encoded=g["functions"],
                bounds=g["bounds"], stubs=g["stubs"], cbmc_args=g["cbmc_args"], features=g["features"],
-               per_harness_timeout_s=g["timeout_s"], wall_s=meta["wall_s"], harnesses=[])
+               per_harness_timeout_s=g["timeout_s"], wall_s=meta["wall_s"], harnesses=[], retried_sequentially=retried)
     out["evidence"] = evg
     if meta["compile_error"] or not results:
         out["inconclusive"].append(f"group {g['filters']}: harness crate did not build or no harness matched: "
@@ -73,7 +89,7 @@ def run(prop, gi, g, tier, known, do_replay):
             unlisted = []
             harness_bugs = [f for f in hr.failed if is_harness_arith(f, g["crate"])]
             if harness_bugs:
-                out["inconclusive"].append(f"harness {hid}: arithmetic/index failure inside the harness code itself ({harness_bugs[0]['description']} at {harness_bugs[0]['location']}): harness bug, not a finding")
+                out["inconclusive"].append(f"harness {hid}: arithmetic/index/unwinding failure inside the harness code itself ({harness_bugs[0]['description']} at {harness_bugs[0]['location']}): harness bug, not a finding")
                 continue
             for f in hr.failed:
                 k = known_match(known, prop, hid, f)
